@@ -130,12 +130,19 @@ static void judge_parse(Doc& d, const std::string& text, const jm::RefResult& re
       return;
     }
     if (!jm::equal(got, ref.v)) {
-      vf::violation("value-mismatch", ctx + ": got " + jm::describe(got, 300) + " expected " + jm::describe(ref.v, 300) +
+      vf::violation("value-mismatch", ctx + ": first difference (got vs expected) " + jm::first_diff(got, ref.v) +
                                           " text=" + vf::printable(text));
       return;
     }
-  } else {  // C02: behaviour after the call is checked by the caller
-    (void)off;
+  } else {  // C02: the outcome must not depend on heap contents (compared across heap-fill runs by the driver)
+    uint64_t h = vf::hash_combine(vf::hash_combine(ok, (uint64_t)code), off);
+    if (ok && !deep) {
+      JVal got;
+      std::string why;
+      if (su::read_node(d, got, why)) h = vf::hash_combine(h, jm::hash_val(got));
+      else vf::violation("accessor-inconsistent", ctx + ": " + why + " text=" + vf::printable(text));
+    }
+    vf::outcome(vf::hash_combine(h, vf::hash_str(text)));
   }
 }
 
@@ -198,39 +205,42 @@ static vf::Counter c_hist("c02:histories"), c_hist_steps("c02:history-steps"), c
 
 template <class Doc>
 static void expect_parse(Doc& d, const std::string& text, const char* cfg, const char* when) {
+  // oracle: the reused document behaves exactly like a fresh document of the
+  // same type given the same text (whether that behaviour is right is C01/C03)
   ExactBuf b(text);
   vf::witness(text);
   vf::eval();
   d.Parse(b.p, b.n);
+  Doc fresh;
+  fresh.Parse(b.p, b.n);
   bool deep = too_deep(text);
-  jm::RefOpts ro;
-  ro.build = !deep;
-  jm::RefResult ref = jm::ref_parse(text, ro);
   bool ok = !d.HasParseError();
-  if (ref.f.cls == jm::Fault::String && ref.f.surrogate_only) return;
-  if (ok != ref.ok) {
-    vf::violation(std::string("reuse-accept-mismatch:") + when,
-                  std::string(cfg) + ": after " + when + " library " + (ok ? "accepted" : "rejected") + " text=" + vf::printable(text));
+  if (ok != !fresh.HasParseError() || d.GetParseError() != fresh.GetParseError() || d.GetErrorOffset() != fresh.GetErrorOffset()) {
+    vf::violation(std::string("reuse-result-differs-from-fresh:") + when,
+                  std::string(cfg) + ": after " + when + " reused document: " + code_name(d.GetParseError()) + "@" +
+                      std::to_string(d.GetErrorOffset()) + ", fresh document: " + code_name(fresh.GetParseError()) + "@" +
+                      std::to_string(fresh.GetErrorOffset()) + " text=" + vf::printable(text));
     return;
   }
+  vf::outcome(vf::hash_combine(vf::hash_combine(ok, (uint64_t)d.GetParseError()), d.GetErrorOffset()));
   if (!ok) {
     if (!d.IsNull()) vf::violation("reuse-failure-not-null", std::string(cfg) + ": not null after failed parse");
     return;
   }
   if (deep) return;
-  JVal got;
+  JVal got, want;
   std::string why;
-  if (!su::read_node(d, got, why)) {
+  if (!su::read_node(d, got, why) || !su::read_node(fresh, want, why)) {
     vf::violation(std::string("reuse-accessor-inconsistent:") + when, std::string(cfg) + ": " + why);
-  } else if (!jm::equal(got, ref.v)) {
-    vf::violation(std::string("reuse-value-mismatch:") + when,
-                  std::string(cfg) + ": after " + when + " got " + jm::describe(got, 200) + " expected " + jm::describe(ref.v, 200));
+    return;
   }
-  // the parsed document must also serialise and re-read to the same value
-  std::string dump = d.Dump();
-  jm::RefResult back = jm::ref_parse(dump);
-  if (!back.ok || !jm::equal(back.v, ref.v))
-    vf::violation(std::string("reuse-dump-mismatch:") + when, std::string(cfg) + ": Dump() of reparsed document differs: " + vf::printable(dump));
+  if (!jm::equal(got, want))
+    vf::violation(std::string("reuse-value-differs-from-fresh:") + when,
+                  std::string(cfg) + ": after " + when + " first difference (reused vs fresh) " + jm::first_diff(got, want));
+  vf::outcome(jm::hash_val(got));
+  std::string dump = d.Dump(), dump2 = fresh.Dump();
+  if (dump != dump2)
+    vf::violation(std::string("reuse-dump-differs-from-fresh:") + when, std::string(cfg) + ": " + vf::printable(dump) + " vs " + vf::printable(dump2));
 }
 
 static std::string gen_any_text(vf::Rng& r, bool want_invalid) {
@@ -261,7 +271,6 @@ static void history(vf::Rng& r, const char* cfg) {
   c_hist.add();
   {
     Doc d;
-    typename Doc::Allocator& a = d.GetAllocator();
     int steps = (int)r.range(2, 8);
     bool last_failed = false;
     for (int s = 0; s < steps; s++) {
@@ -280,6 +289,7 @@ static void history(vf::Rng& r, const char* cfg) {
         }
         case 3: {  // build through the mutation API on the same document
           vf::note("SetObject+AddMember+PushBack");
+          typename Doc::Allocator& a = d.GetAllocator();  // Swap/move may have exchanged allocators
           d.SetObject();
           typename Doc::NodeType arr;
           arr.SetArray();
